@@ -68,6 +68,22 @@ HISTORY = {
     "C02d": ("strengthened", "missed (needs a plain backward BEFORE a graph-recording one on the same operator object: state cached on the operator between backward passes); added histories of backward passes (2nd_plain_first, 2nd_resolve)"),
     "C05d": ("strengthened", "missed (needs svd of a Hermitian-FLAGGED operator with an indefinite spectrum); added svd/herm2x2 (3x3 thorough) over all sign patterns: singular values are the magnitudes of the planted eigenvalues"),
     "C08d": ("as built", "param_graph/duplicate (the same leaf in two parameter slots)"),
+    "C01d": ("strengthened", "missed (needs E and M with M alone batched); added krylov/cg/scalar/AEM/Mbatch{,1} (A = g*I, M = m_k*I: one-iteration convergence for every shift and batch element, so the alignment of E's column axis against M's batch axis is decided symbolically)"),
+    "C03d": ("strengthened", "the equilibrium/anderson_acc configuration finds it in 70 s on its own, but in the full quick run its deciding query timed out while 16 workers competed for the cores and the run ended 'inconclusive' (exit 0); the driver now gives configurations with undecided claims a second, uncontended run"),
+    "C04d": ("strengthened", "missed (needs second order through solve's own autograd Function with a non-differentiable argument first); added ift1d/.../explicit_nd_first/2nd/bck_custom_exactsolve (root, guess and cotangent fixed at rationals, a and b symbolic: with everything symbolic the second-order claims were beyond z3)"),
+    "C06d": ("as built", "svd/exacteig/full: degenerate zero singular values"),
+    "C07d": ("strengthened", "missed (the controller scenarios were self-consistent with the solver's internal, already mirrored function); added 'rhs only evaluated inside the integration interval' and 'decreasing ts = mirrored problem on increasing -ts' to controller/*/decreasing"),
+    "C09d": ("strengthened", "missed (needs a frozen parameter registered BEFORE the parameter the map is non-linear in, second order, backward solve through solve's autograd Function); added functional rootfinder_bck, module kind nn_rev and pattern middle_frozen"),
+    "C10d": ("strengthened", "missed (the debug flag was only observed around functional calls, never with enable_debug/disable_debug blocks entered when the flag already had the requested value); added debug_contexts (both previous values x all nestings up to depth 3 x crash points)"),
+    "C11d": ("as built", "products/dense/complex: rmv of a complex dense leaf"),
+    "C12d": ("as built", "infinite/n2: nodes are the tan image of the affine nodes in t"),
+    "C13d": ("as built", "grad/n2/2nd"),
+    "C14d": ("as built", "spline/*/call: y given at call time"),
+    "C15d": ("as built", "simpson on non-uniform grids: running integral of the interpolant"),
+    "C16d": ("strengthened", "missed (needs f and log p as two methods of ONE object); added same_object/{nn,editable}"),
+    "C17d": ("strengthened", "missed (needs an operator BUILT under no_grad and differentiated later); added jac|hess/differentiable/built_under_no_grad and the reverse (product under no_grad of an operator built with grad on)"),
+    "C18d": ("strengthened", "missed (needs a built-in root solver warm-started exactly on the root, then a gradient); added builtin_warm_start_on_root (shared with C04: first and second order, y0 constant or differentiable) and C03 exact_start - which exposed a genuine defect (complex exact start raised), fixed"),
+    "C20d": ("strengthened", "missed (needs mutable non-tensor content the traversal does not descend into: a list inside a tuple, a set, a bytearray, an ndarray); added template opaque_leaves and the history 'edit a result in place, rebuild again'"),
     # ROUND4_MORE
 }
 
